@@ -303,6 +303,7 @@ theorem lexExprToken_ok {p0 : Pos} (hv : valid p0.rest = true) (st : List State)
   · split
     · rename_i o ho
       apply emitAfter_ok
+      unfold lookupOp2 at ho
       split at ho
       · rename_i a b t hr
         have hm := lookup_mem ho
